@@ -4,6 +4,7 @@
 -/
 import Proofs.FileEncrypt
 import Proofs.ToyPrims
+import Proofs.ArmorRead
 namespace AgeModel
 namespace Props.C01
 open Format Stream
@@ -185,6 +186,23 @@ theorem hsep_other_types (P : Prims) (sk fk tp : Bytes) (r : Recipient) (ss : Li
 
 /-- non-vacuity: the hypotheses on the primitives are satisfiable (together) -/
 example : Prims.toy.Correct ∧ Prims.toy.aead.NonceSep := ⟨Prims.toy_correct, AEAD.toy_nonceSep⟩
+
+end Props.C01
+end AgeModel
+
+namespace AgeModel
+namespace Props.C01
+open Format Stream
+
+/-- **Armor is transparent.** Armoring the file and de-armoring it (any whitespace
+    budget W > 0) gives the file back with a clean end, so every statement above
+    holds equally when the file travels through the ASCII armor:
+    `decrypt (dearmor (armor (encrypt …)))` is `decrypt (encrypt …)`. -/
+theorem armor_transparent (P : Prims) (C W : Nat) (hW : 0 < W) (ids : List Identity) (file : Bytes) :
+    (Armor.read W false (Armor.armor file)).2 = .eof ∧
+    decryptFile P C ids (Armor.read W false (Armor.armor file)).1 = decryptFile P C ids file := by
+  rw [Armor.read_armor W hW file]
+  exact ⟨rfl, rfl⟩
 
 end Props.C01
 end AgeModel
